@@ -3,9 +3,10 @@
 Streams
   corr.regex        the six regexes of PythonPrinter vs the Lean predicates: every concatenation of <= L tokens
                     (keywords, `:`, `#`, blank, tab, newline, form feed, U+00A0, `x`) - exhaustive;
-  corr.printer      PythonPrinter.writeline / write_indented_block vs the Lean state machine: all sequences of <= 3
-                    calls over 27 lines + random longer ones (indent of every written entry, final indent and
-                    indent_detail, MakoException);
+  corr.printer      PythonPrinter.writeline / write_indented_block vs the Lean state machine: all sequences of <= 2
+                    calls (thorough: <= 3, over 21 of them) over 31 lines + `None` + 2 blocks, and random longer
+                    ones (indent of every written entry, final indent, suite_is_empty and indent_detail,
+                    MakoException);
   corr.lexctl       Lexer.match_control_line vs `lexCtl` (margins, `%%`, `##`, backslash-newline, CR/LF);
   corr.fragment     ast.PythonFragment (accept / reject; keyword) vs `fragmentAdmits`, and `HeaderOk` vs the real
                     printer on the same text - exhaustive over a header token alphabet;
@@ -24,9 +25,13 @@ Streams
   oracle.native     NO LEAN: every generated template is also translated to a plain Python function (native
                     if/elif/else, for/else, while, try/except, with, closures; `loop` computed from enumerate())
                     and run for every crash point: outcome and output must agree with mako;
-  oracle.quirks     the same oracle on shapes that are known to fail (one knob at a time; KNOWN-FINDING lines);
-  oracle.handwritten fixed templates (header whitespace, `<%! %>`-only suite, `% finally`, margins) with the
-                    expected output written next to them.
+  oracle.quirks     the same oracle on the shapes of the recorded findings: hand-made minimal trees, then a random
+                    search with the generator steered towards one shape at a time (hit counts per shape in the
+                    evidence branches `quirk:<shape>:…`; KNOWN-FINDING lines);
+  oracle.handwritten fixed templates with the expected output written next to them (margins, empty and comment-only
+                    suites, suites of defs / module code only, continued headers and clauses, blocks at margins,
+                    for/else + break, with, typed and several excepts, `loop` after a caught exception, the
+                    outermost `loop.parent`, form feed after a header colon, colon in a `% for` comment).
 """
 from __future__ import annotations
 
@@ -47,8 +52,10 @@ LEAN_EXTRA_TARGETS = ["MakoModel.Codegen.Spec"]
 
 RULE = ("templates from the grammar of harness/c03_gen.py: control structures nested to depth 5 (if/elif*/else?, "
         "for/else? over lists, strings, generators and iterators of length 0..4, while, try/except with bare, "
-        "Exception, Boom, KeyError and tuple clauses, with), every `%` line with its own random margin before and "
-        "after the `%`, empty and comment-only bodies (## lines, <%doc>), text / ${expr} / def calls / <%call> with "
+        "Exception, Boom, KeyError and tuple clauses - one or several per `% try` -, with), every `%` line with its own "
+        "random margin before and after the `%`, 12 % of the if/elif/while/with/except lines continued after the "
+        "keyword with backslash-newline, `% for` lines with trailing comments (with and without colons), empty and "
+        "comment-only bodies (## lines, <%doc>), bodies holding only <%def>s or <%! %> blocks, text / ${expr} / def calls / <%call> with "
         "body / anonymous blocks / nested defs in bodies, <% %> blocks at a uniform margin of 0-8 blanks or 1-2 tabs "
         "with multi-line string literals and nested python if/else, break / continue / return, `loop` used "
         "directly, only in an `% elif` header, only in an `% except` body, only in a python block, only in a nested "
@@ -66,7 +73,8 @@ ASSUMPTIONS = [
     "`loop` inside the `% else:` clause of a `% for` is not probed (the property text does not say which loop it "
     "denotes there; mako: still the finished loop, index = n)",
     "a closure (nested def, <%call> body) under a `% for` either reads the enclosing `loop` or has loops of its own "
-    "in the main streams (both at once is the recorded finding F-C03-7)",
+    "in the main streams (both at once is the recorded finding F-C03-7); a <%def> in a <%call> body under a `% for` "
+    "of that body does not read `loop` there (F-C03-11)",
     "a nested def that reads the enclosing `loop` is called at the level of that loop only, not from a deeper "
     "`% for` (there the closure sees the deeper loop - Python's closure semantics - while textually its innermost "
     "enclosing loop is the outer one; the property text leaves it open)",
@@ -447,6 +455,24 @@ def hazards(body):
             if (fl["buffered"] or fl["filters"]) and any(
                     c[0] == "py" and any(s[0] == "ret" for s in c[1]) for c in _callable_level(G.sub_bodies(n)[0])):
                 hz.add("ret-in-buffering")
+
+    def call_body(b, in_for):
+        """a <%def> directly in a <%call> body (under its control lines) is written into `ccall` beside body(): it
+        is no closure of the body and cannot see the loop of a `% for` of that body"""
+        for n in b:
+            k = n[0]
+            if k == "def" and in_for and _mentions_outside_for(n[4]):
+                hz.add("loop-in-call-body-def")
+            elif k == "for":
+                call_body(n[3], True)
+                if n[4] is not None:
+                    call_body(n[4], in_for)
+            elif k in ("if", "while", "try", "with"):
+                for sb in G.sub_bodies(n):
+                    call_body(sb, in_for)
+    for n in G.walk(body):
+        if n[0] == "call":
+            call_body(n[2], False)
 
     def scope(sbody, avail_parent, lp_unsized, outer_loop):
         """sbody: body of a callable; avail_parent: an enclosing scope declares __M_loop; lp_unsized: the loop
@@ -1029,21 +1055,32 @@ def quirk_trees():
               [loop_i, ["call", ["call", 1, []],
                         [loop_i, ["for", 2, ["list", [["lit", "r"]]], [["expr", ["loop", "first"]]], None, _o(2)]]]],
               None, _o(2)]]],
+        "loop-in-call-body-def": [
+            [["def", 1, [], F(), [["text", "("], ["expr", ["callerbody"]], ["text", ")"]]],
+             ["call", ["call", 1, []],
+              [["for", 2, ["list", [["lit", "p"], ["lit", "q"]]],
+                [["def", 2, [], F(), [loop_i]], ["expr", ["call", 2, []]], loop_i], None, _o(2)]]]]],
         "unsized-len": [
             [["for", 1, ["gen", [["lit", "p"], ["lit", "q"]]], [["expr", ["loop", "last"]]], None, _o(2)]],
             [["for", 1, ["iter", [["lit", "p"], ["lit", "q"]]], [["expr", ["loop", "reverse_index"]]], None, _o(2)]]],
     }
 
 
+_CLOSURES = {"text": 1, "expr": 5, "for": 7, "def": 6, "call": 6}
 QUIRKS = [
-    ("ret-in-buffering", dict(ret_in_buffered=True, constructs={"text": 4, "expr": 4, "def": 5, "ret": 3, "if": 1})),
-    ("loop-only-in-closure", dict(loop_only_in_closure=True, loop_only_in_call_expr=True, p_loop_use=0.1,
-                                  constructs={"text": 3, "expr": 3, "for": 6, "def": 4, "call": 4})),
-    ("loop-only-in-call-expr", dict(loop_only_in_closure=True, loop_only_in_call_expr=True, p_loop_use=0.1,
-                                    constructs={"text": 3, "expr": 3, "for": 6, "def": 4, "call": 6})),
+    ("ret-in-buffering", dict(ret_in_buffered=True, call_defs=True, p_def_flag=0.7,
+                              constructs={"text": 5, "expr": 3, "def": 5, "ret": 2.5, "if": 1})),
+    ("loop-only-in-closure", dict(loop_only_in_closure=True, loop_only_in_call_expr=True, hide_direct_loop=1.0,
+                                  p_loop_in_call_args=0.0, p_loop_use=0.95, constructs=_CLOSURES, budget=16,
+                                  call_defs=True, p_callerbody=0.8)),
+    ("loop-only-in-call-expr", dict(loop_only_in_closure=True, loop_only_in_call_expr=True, hide_direct_loop=1.0,
+                                    p_loop_in_call_args=0.95, p_loop_use=0.95, budget=16,
+                                    constructs={"text": 2, "expr": 2, "for": 7, "def": 4, "call": 8})),
+    ("loop-in-call-body-def", dict(loop_in_call_body_def=True, p_loop_use=0.95, budget=26, call_defs=True,
+                                   p_callerbody=0.9, constructs={"text": 1, "expr": 3, "for": 8, "def": 6, "call": 9})),
     ("unsized-len", dict(unsized_len=True, p_loop_use=0.95, constructs={"text": 3, "expr": 8, "for": 6, "if": 2})),
-    ("closure-mixed", dict(closure_mixed=True, p_loop_use=0.95, constructs={"text": 3, "expr": 6, "for": 6, "def": 4,
-                                                                             "call": 4})),
+    ("closure-mixed", dict(closure_mixed=True, p_loop_use=0.95, budget=22, call_defs=True, p_callerbody=0.8,
+                           constructs=_CLOSURES)),
 ]
 
 
@@ -1160,24 +1197,34 @@ def run(ctx):
         # recorded-finding shapes, one knob at a time
         qt = quirk_trees()
         for name, kw in QUIRKS:
+            before = len(ctx.violations)
             for body in qt.get(name, []):
                 if name not in hazards(body):
                     ctx.broke("oracle.quirks:" + name, "the hand-made shape is not recognised as this hazard")
                 run_template(ctx, body, Cfg(), "oracle.quirks", stq, [], [], [], ("qt", name))
-            found = 0
-            tries = 0
-            limit = 25 if ctx.quick else 150
+            ctx.branch("quirk:%s:hand-made-violations" % name, len(ctx.violations) - before)
+            # random search with the generator steered towards the shape
+            found = shaped = tries = 0
+            limit = 150 if ctx.quick else 400
+            seen = getattr(ctx, "_c03_reported", None)
             while found < 2 and tries < limit:
                 tries += 1
-                g = G.Gen(ctx.rng, G.Knobs(budget=12, max_depth=3, **kw))
+                g = G.Gen(ctx.rng, G.Knobs(**dict(dict(budget=12, max_depth=4), **kw)))
                 body = g.template()
                 if name not in hazards(body):
                     continue
-                before = len(ctx.violations)
+                shaped += 1
+                site, _, _, _ = judge(body, Cfg(), -1)
+                if site is None:
+                    continue            # the shape is there but not reached / not observable in this template
+                found += 1
+                if seen is not None:    # let the random hits through the per-shape cap of `report`
+                    for key in [k for k in seen if k[2] == "oracle.quirks"]:
+                        seen[key] = min(seen[key], 1)
                 run_template(ctx, body, Cfg(), "oracle.quirks", stq, [], [], [], ("q", name, tries))
-                if len(ctx.violations) > before:
-                    found += 1
-            ctx.branch("quirk:%s:found" % name, found)
+            ctx.branch("quirk:%s:random-templates" % name, tries)
+            ctx.branch("quirk:%s:random-with-shape" % name, shaped)
+            ctx.branch("quirk:%s:random-violations" % name, found)
         handwritten(ctx)
         if skel:
             ctx.sample({"template": skel[0][2].src[len(R.PRELUDE):][:400]})
